@@ -26,6 +26,7 @@ from ..ops import World
 
 ROOT = os.path.dirname(os.path.dirname(os.path.dirname(os.path.abspath(__file__))))
 HASH_SEEDS = ["1", "4242", "random"]
+DEFAULT_MAX_MOTIFS = 100_000
 
 
 def canon_value(op, val):
@@ -97,15 +98,24 @@ class C19(Machine):
     FAMILY_WEIGHTS = {"sparse": 3, "dense": 1, "canal": 2, "modular": 3, "maa": 2, "cascade": 2, "maa_cascade": 4}
     NMAX = {"quick": 6, "thorough": 7}
     FMTS = ("bnet", "aeon", "api")
+    NONDETERMINISTIC_REPLAY = True
 
     def gen_scenario(self, run_seed, tier):
         rng = sub_rng(run_seed, "net")
         net = gen_network(rng, self.FAMILY_WEIGHTS, nmax=self.NMAX.get(tier, 6), fmts=self.FMTS, shuffle_order=True)
         prng = sub_rng(run_seed, "params")
-        sc = {"property": self.ID, "run_seed": run_seed, "tier": tier, "net": net, "config": None, "walk_seed": None, "reorder_seed": None, "ops_seed": run_seed, "params": {"len": prng.randint(2, 9), "hash_seeds": HASH_SEEDS[: 2 if tier == "quick" else 3], "other_seed": prng.randrange(1 << 30)}}
+        sc = {"property": self.ID, "run_seed": run_seed, "tier": tier, "net": net, "config": None, "walk_seed": None, "reorder_seed": None, "ops_seed": run_seed, "params": {"len": prng.randint(2, 9), "hash_seeds": (HASH_SEEDS[: 2 if tier == "quick" else 3] if prng.random() < (0.35 if tier == "quick" else 0.6) else []), "other_seed": prng.randrange(1 << 30)}}
         if prng.random() < 0.3:
             sc["config"] = gen_knobs(prng, p=0.3)
-        if prng.random() < 0.35:
+        if prng.random() < 0.2:
+            # block-first scenario: the history starts with block expansion / build (which runs
+            # motif-avoidance checks on sub-diagrams of blocks), and one of the unrelated worlds
+            # is the same network under tight candidate limits expanded the same way
+            sc["params"]["mode"] = "block_first"
+            sc["config"] = None
+            if prng.random() < 0.7:
+                sc["net"] = gen_network(sub_rng(run_seed, "net-block"), {"maa_cascade": 2, "modular": 2, "cascade": 1}, nmax=self.NMAX.get(tier, 6), fmts=self.FMTS, shuffle_order=True)
+        elif prng.random() < 0.35:
             # skip-seeds scenario: partial expansion, skipping, then the seeds of every node.
             # Skip nodes prune by intersections with other nodes: the part of attractor
             # detection whose outcome is most sensitive to incidental ordering.
@@ -141,6 +151,12 @@ class C19(Machine):
             for i in ids[:14]:
                 seq.append({"op": "seeds", "node": w.space_of(i), "compute": True, "fallback": False})
             return seq
+        if sc["params"].get("mode") == "block_first":
+            op = rng.choice([{"op": "block", "maa": True, "size": None, "opt_src": rng.random() < 0.7, "exact": False}, {"op": "build"}])
+            w.apply(op)
+            ops.append(op)
+            ops.append({"op": "exp_seeds"})
+            w.apply(ops[-1])
         for _ in range(sc["params"]["len"]):
             op = full_op(w, rng, w=(0.42, 0.25, 0.08, 0.05, 0.12, 0.08))
             out = w.apply(op)
@@ -156,7 +172,16 @@ class C19(Machine):
         nets = []
         for j in range(2):
             net = gen_network(rng, None, nmax=5)
+            if j == 0 and (rng.random() < 0.5 or sc["params"].get("mode") == "block_first"):
+                # the *same* network under another configuration: anything cached per network
+                # text / module rather than per diagram would leak between the two
+                net = sc["net"]
             cfg = gen_knobs(rng, p=0.4)
+            if net is sc["net"]:
+                for k in ("attractor_candidates_limit", "retained_set_optimization_threshold"):
+                    if rng.random() < 0.7:
+                        cfg[k] = rng.choice([0, 0, 1, 1, 2, 3])
+                cfg["max_motifs_per_node"] = DEFAULT_MAX_MOTIFS
             cfg["debug"] = rng.random() < 0.5
             if rng.random() < 0.3:
                 cfg["max_motifs_per_node"] = rng.choice([1, 2, 3])
@@ -164,15 +189,22 @@ class C19(Machine):
         scratch = [World(n, c, None, None, budget=True) for n, c in nets]
         plan = {}
 
+        first_same = [True]
+
         def some(k):
             res = []
             for _ in range(k):
                 j = rng.randrange(2)
+                if first_same[0] and nets[0][0] is sc["net"]:
+                    j = 0
                 sw = scratch[j]
                 if sw.sd is None or sw.log[0]["out"]["cls"] != "ok":
                     continue
                 r = rng.random()
-                if r < 0.2:
+                if nets[j][0] is sc["net"] and (r < 0.5 or first_same[0]):
+                    first_same[0] = False
+                    oop = rng.choice([{"op": "block", "maa": True, "size": None, "opt_src": True, "exact": False}, {"op": "build"}, {"op": "scc", "maa": True}])
+                elif r < 0.2:
                     oop = {"op": "seeds", "node": sw.space_of(rng.choice(sw.node_ids())), "compute": True, "fallback": True, "fail_at": 1}
                 else:
                     oop = full_op(sw, rng)
